@@ -1344,6 +1344,31 @@ where
         self.delete_entity(zalsa, stale_output_key)
     }
 
+    /// Rewrites the free list in place (same order): every entry whose generation is below
+    /// `generation` gets that generation. Sound because a slot does not store its generation and
+    /// all handles of a freed slot are dead; it lets a harness reach the generation-overflow paths.
+    #[cfg(salsa_verif)]
+    fn verif_age_free_list(&self, generation: u32) {
+        let n = self.free_list.len();
+        for _ in 0..n {
+            let Some(id) = self.free_list.pop() else { break };
+            let aged = if id.generation() < generation {
+                id.with_generation(generation)
+            } else {
+                id
+            };
+            self.free_list.push(aged);
+            crate::verif_trace::ts(
+                "age",
+                format_args!(
+                    "{} {}",
+                    crate::verif_trace::SId(self.ingredient_index, id),
+                    crate::verif_trace::SId(self.ingredient_index, aged),
+                ),
+            );
+        }
+    }
+
     fn debug_name(&self) -> &'static str {
         C::DEBUG_NAME
     }
